@@ -97,3 +97,10 @@ CLAIMED['C15'] = ('6/C15', 'Bounded-exhaustive symbolic round-trip check with th
                   'per parameter, also through serialize_value/deserialize_value. The date format round trip for every year 1..9999 and '
                   'the DateRange discriminator are decided in z3 from the format strings read from the source (unsat of "does not parse").',
                   'symbolic execution (CrossHair+z3) of the serializer loop and per-type hooks with a JSON contract stub; strftime/strptime format model in z3')
+CLAIMED['C16'] = ('6/C16', 'Bounded-exhaustive symbolic check: one parameter per path of 16 schema-supported kinds, declared from a symbolic '
+                  'configuration (bounds presence/values/inclusivity over unbounded ints and finite IEEE doubles, allow_None, length, item '
+                  'type, object lists) with a valid symbolic value; the generated schema must be well-formed, the serialized value must '
+                  'validate, null must validate when allow_None, and a symbolic numeric probe outside the hard bounds of an Integer/Number '
+                  'must be rejected. The evaluator used on symbolic values is cross-checked against the real jsonschema package on every '
+                  'concrete replay.',
+                  'symbolic execution (CrossHair+z3) of schema generation with a JSON-Schema evaluator over symbolic numbers')
